@@ -88,7 +88,7 @@ def shrink(line, fails, rounds=12, batch=400, budget_s=45.0):
     """fails(list of lines) -> list of bool"""
     import time
     t0 = time.time()
-    if len(line) > 1_000_000: return line          # a case that large is reported as it is
+    if len(line) > 60_000: return line          # a case that large (wide lists, chains of thousands of levels) is reported as it is: the variants of a tree of n nodes cost n^2
     cur = line
     for _ in range(rounds):
         if time.time() - t0 > budget_s: break
